@@ -16,5 +16,7 @@ sys.path.insert(0, os.getcwd())
 import orch
 w, s = orch.build_worker(sys.argv[1], "plain")
 print("plain worker built in %.1fs" % s)
+w, s = orch.build_worker(sys.argv[1], "instr")
+print("instrumented worker built in %.1fs" % s)
 PY
 echo setup done
